@@ -757,6 +757,17 @@ func binop(op token.Token, x, y *Term, T types.Type) *Term {
 		if xs == ys {
 			return boolTerm(op == token.LEQ || op == token.GEQ)
 		}
+	case token.MUL:
+		if a, ok := x.Int(); ok {
+			if b, ok := y.Int(); ok && isIntType(T) {
+				return &Term{Op: "const", Name: strconv.FormatInt(a*b, 10), Typ: T}
+			}
+		}
+	case token.SHR:
+		// x >> 0 is x
+		if b, ok := y.Int(); ok && b == 0 {
+			return x
+		}
 	case token.ADD, token.SUB:
 		if a, ok := x.Int(); ok {
 			if b, ok := y.Int(); ok && isIntType(T) {
@@ -1254,6 +1265,13 @@ func (e *engine) doCall(fr *frame, site ssa.Instruction, c *ssa.CallCommon, preF
 	for i, a := range args {
 		args[i] = e.filled(a)
 	}
+	// a local bytes.Buffer is an append-only byte sequence: Write / WriteByte / WriteString /
+	// binary.Write extend the cell's content, Bytes / String read it, Grow / Reset(empty) are
+	// capacity management.  Only buffers that live in a local cell are modelled.
+	if r, handled := e.bytesBuffer(name, args); handled {
+		cont(r)
+		return
+	}
 	// encoding/binary PutUintNN(dst, v): a write of the encoded integer into dst
 	if strings.HasPrefix(name, "(encoding/binary.") && strings.Contains(name, ").PutUint") && len(args) == 3 {
 		enc := "be"
@@ -1282,6 +1300,94 @@ func (e *engine) doCall(fr *frame, site ssa.Instruction, c *ssa.CallCommon, preF
 		return
 	}
 	e.afterOpaque(fr, ev, args, cont)
+}
+
+// bufferCell: the local cell behind a *bytes.Buffer argument (&alloc, possibly boxed as io.Writer).
+func bufferCell(t *Term) (*Term, bool) {
+	for t != nil && (t.Op == "iface" || t.Op == "convert") && len(t.Args) == 1 {
+		t = t.Args[0]
+	}
+	if t == nil || t.Op != "addr" || len(t.Args) != 1 || t.Args[0].Op != "alloc" {
+		return nil, false
+	}
+	if t.Args[0].Typ == nil || !strings.HasSuffix(types.TypeString(deref(t.Args[0].Typ), nil), "bytes.Buffer") {
+		return nil, false
+	}
+	return t.Args[0], true
+}
+
+func (e *engine) bufferContent(cell *Term) *Term {
+	if c, ok := e.mem[rootKey(cell)]; ok && c.Op != "zero" {
+		return c
+	}
+	return &Term{Op: "const", Name: "nil", Typ: types.NewSlice(types.Typ[types.Byte])}
+}
+
+func (e *engine) bytesBuffer(name string, args []*Term) (*Term, bool) {
+	bytesT := types.NewSlice(types.Typ[types.Byte])
+	appendTo := func(cell *Term, x *Term) {
+		e.setMem(rootKey(cell), &Term{Op: "call", Name: "builtin.append", Args: []*Term{e.bufferContent(cell), x}, Typ: bytesT})
+	}
+	okRes := func() *Term {
+		return &Term{Op: "tuple", Args: []*Term{{Op: "opaque", Name: "n"}, {Op: "const", Name: "nil"}}}
+	}
+	if strings.HasPrefix(name, "(*bytes.Buffer).") && len(args) >= 1 {
+		cell, ok := bufferCell(args[0])
+		if !ok {
+			return nil, false
+		}
+		switch methodOf(name) {
+		case "Write", "WriteString":
+			appendTo(cell, args[1])
+			return okRes(), true
+		case "WriteByte":
+			appendTo(cell, &Term{Op: "call", Name: "byte", Args: []*Term{args[1]}, Typ: bytesT})
+			return &Term{Op: "const", Name: "nil"}, true
+		case "Grow":
+			return &Term{Op: "tuple"}, true
+		case "Bytes":
+			return e.bufferContent(cell), true
+		case "Len":
+			return &Term{Op: "call", Name: "builtin.len", Args: []*Term{e.bufferContent(cell)}, Typ: types.Typ[types.Int]}, true
+		}
+		return nil, false
+	}
+	if name == "encoding/binary.Write" && len(args) == 3 {
+		cell, ok := bufferCell(args[0])
+		if !ok {
+			return nil, false
+		}
+		order, v := args[1], args[2]
+		for v.Op == "iface" && len(v.Args) == 1 {
+			v = v.Args[0]
+		}
+		enc := ""
+		switch {
+		case strings.Contains(order.Key(), "BigEndian"):
+			enc = "be"
+		case strings.Contains(order.Key(), "LittleEndian"):
+			enc = "le"
+		}
+		bits := 0
+		if b, ok := v.Typ.Underlying().(*types.Basic); ok {
+			switch b.Kind() {
+			case types.Uint64, types.Int64:
+				bits = 64
+			case types.Uint32, types.Int32:
+				bits = 32
+			case types.Uint16, types.Int16:
+				bits = 16
+			case types.Uint8, types.Int8:
+				bits = 8
+			}
+		}
+		if enc == "" || bits == 0 {
+			return nil, false
+		}
+		appendTo(cell, &Term{Op: "call", Name: enc + strconv.Itoa(bits), Args: []*Term{v}, Typ: bytesT})
+		return &Term{Op: "const", Name: "nil"}, true // a fixed-size value into a bytes.Buffer cannot fail
+	}
+	return nil, false
 }
 
 // copyInto models copy(dst, src) / PutUintNN(dst, v) on slices that alias a
@@ -1442,6 +1548,11 @@ func (e *engine) builtin(fr *frame, site ssa.Instruction, name string, args []*T
 		ct := &Term{Op: "call", Name: "builtin.copy", Args: args, ID: e.newID(), Typ: resT, Site: site}
 		e.emit(Event{Kind: EvCall, Call: ct, Res: ct, Instr: site, Fn: fr.fn, Depth: fr.depth})
 		e.copyInto(args[0], e.filled(args[1]))
+		// copy returns min(len(dst), len(src)); when dst is a fresh made slice whose length is
+		// len(src) plus non-negative terms, that is len(src)
+		if n := copiedLen(args[0], args[1]); n != nil {
+			return n
+		}
 		return ct
 	case "delete":
 		e.emit(Event{Kind: EvMapDelete, Place: args[0], Cond: args[1], Instr: site, Fn: fr.fn, Depth: fr.depth})
@@ -1459,6 +1570,39 @@ func (e *engine) builtin(fr *frame, site ssa.Instruction, name string, args []*T
 		return &Term{Op: "tuple"}
 	}
 	panic(ErrUndecided{"unhandled builtin " + name})
+}
+
+// copiedLen: len(src) if dst = make([]byte, L)[lo:] with L - lo - len(src) a sum of
+// non-negative terms (lengths, non-negative constants); nil when that cannot be shown.
+func copiedLen(dst, src *Term) *Term {
+	lo := linForm{k: map[string]int64{}}
+	base := dst
+	if base.Op == "slice" && base.Plc == nil {
+		if base.Args[2] != nil {
+			return nil
+		}
+		if base.Args[1] != nil {
+			lo = lin(base.Args[1])
+		}
+		base = base.Args[0]
+	}
+	if base.Op == "filled" {
+		base = base.Args[0]
+	}
+	if base.Op != "make" || base.Name != "slice" || len(base.Args) == 0 {
+		return nil
+	}
+	srcLen := &Term{Op: "call", Name: "builtin.len", Args: []*Term{strip(src)}, Typ: types.Typ[types.Int]}
+	rest := lin(base.Args[0]).add(lo, -1).add(lin(srcLen), -1)
+	if rest.c < 0 {
+		return nil
+	}
+	for a, k := range rest.k {
+		if k < 0 || !strings.HasPrefix(a, "builtin.len(") {
+			return nil
+		}
+	}
+	return srcLen
 }
 
 func orNil(t *Term) *Term {
